@@ -37,7 +37,8 @@ func joinSrc(ls []srcLine) string {
 }
 
 var badDates = []string{"2020-13-01", "2020-00-10", "2020-01-00", "2020-02-30", "1900-02-29", "2021-02-29", "2020-04-31", "2020-1-01", "2020-01-1", "20200101", "2020-01/01", "2020/01-01",
-	"20-01-01", "02020-01-01", "2020.01.01", "2020-01-01x", "x2020-01-01", "2020-01-32", "abcd-01-01", "2020-0a-01", "2020-01-011", "2020_01_01", "2020-01-01-", "-2020-01-01", "2020–01–01", "٢٠٢٠-01-01"}
+	"20-01-01", "02020-01-01", "2020.01.01", "2020-01-01x", "x2020-01-01", "2020-01-32", "abcd-01-01", "2020-0a-01", "2020-01-011", "2020_01_01", "2020-01-01-", "-2020-01-01", "2020–01–01", "٢٠٢٠-01-01",
+	"\ufeff2020-01-01", "\u200b2020-01-01", "2020-01-01\u200b", "\u20602020-01-01", "2020\u00ad-01-01", "２０２０-01-01"}
 
 var badHeadlineTails = []string{" foo", " (8h)", " 8h!", " (8h!) x", " (8h!)x", " (!)", " ()", " (8h!", " 8h!)", " (8x!)", " (8h!!)", " (1h60m!)", " (8h! 7h!)", "(8h!)", " [8h!]", " (8h!) (7h!)", " #tag", " (8:00!)", " (eight!)"}
 
